@@ -526,12 +526,13 @@ Proof.
 Qed.
 
 (** `cooler cload pairs`: the stored pixels are aggregate_records of the per-record outputs of the whole
-    input, however the reader cuts it into chunks; the command fails iff some record is an error *)
+    input (restricted to bin1_id < nbins, see the model), however the reader cuts it into chunks; the
+    command fails iff some record is an error *)
 Theorem cload_pairs_spec blocks zero_based ta chunks :
   cload_pairs blocks zero_based ta chunks =
   match collect (map (sanitize1 blocks (negb zero_based) true ta) (concat chunks)) with
   | None => None
-  | Some recs => Some (aggregate_records recs)
+  | Some recs => Some (filter (fun p => row p <? zlen (table blocks)) (aggregate_records recs))
   end.
 Proof. unfold cload_pairs. now rewrite all_some_sanitize, sanitize_is_map_filter. Qed.
 
@@ -539,3 +540,16 @@ Corollary cload_pairs_chunking blocks zero_based ta chunks chunks' :
   concat chunks = concat chunks' ->
   cload_pairs blocks zero_based ta chunks = cload_pairs blocks zero_based ta chunks'.
 Proof. intros H. now rewrite !cload_pairs_spec, H. Qed.
+
+(** when every retained record got a bin1 inside the table (true of every valid record) nothing is cut off *)
+Lemma aggregate_records_inrange n recs :
+  (forall o, In o recs -> ob1 o < n) ->
+  filter (fun p => row p <? n) (aggregate_records recs) = aggregate_records recs.
+Proof.
+  intros H. apply filter_all. intros p Hp.
+  destruct (aggregate_records_canon recs) as [(_ & Hk & _) _].
+  assert (Hin : In (fst p) (keys (aggregate_records recs))) by (unfold keys; now apply in_map).
+  apply Hk in Hin. unfold keys in Hin. rewrite map_map in Hin. cbn [fst] in Hin.
+  apply in_map_iff in Hin as [o [Ho Hino]]. specialize (H o Hino).
+  unfold row. rewrite <- Ho. unfold okey. cbn [fst]. lia.
+Qed.
